@@ -293,7 +293,7 @@ def run_check(prop, tier, spec, nworkers=None, runs=None, budget_s=None, quiet=F
                     # down to a transient disturbance of the machine (seen once: three runs of one batch while
                     # ~70 workers of other checks competed for the box) and recorded in the evidence; more than
                     # that means the harness itself is not deterministic, which is a HARNESS-ERROR.
-                    transients.append({"class": k, "seed": v0["seed"]})
+                    transients.append({"class": k, "seed": v0["seed"], "message": msg0[:300], "events_tail": v0.get("events_tail", [])[-40:], "log_tail": v0.get("log_tail", [])[-12:]})
                     continue
                 scen, tape, res = v0["scenario"], v0["tape"], None
             else:
@@ -400,7 +400,7 @@ def run_check(prop, tier, spec, nworkers=None, runs=None, budget_s=None, quiet=F
             print("VIOLATION property=%s replay=%s" % (prop, path))
             print("  class=%s runs=%d: %s" % (k, n, msg))
         for tr in transients:
-            print("NOTE property=%s an observation of class %s (seed %s) did not reproduce on replay and was discarded" % (prop, tr["class"], tr["seed"]))
+            print("NOTE property=%s an observation of class %s (seed %s) did not reproduce on replay and was discarded: %s" % (prop, tr["class"], tr["seed"], tr.get("message", "")[:200]))
         for hp in harness_problems:
             print("HARNESS-ERROR property=%s %s" % (prop, hp))
         print(
